@@ -270,6 +270,10 @@ pub fn file_items(file: &syn::File) -> J {
     // everything outside function bodies that decides what the names inside them MEAN: macros, imports, traits and impl headers,
     // type definitions, crate attributes.  The translator reads bodies under the pinned environment; a difference here is reported.
     let mut env: Vec<J> = file.attrs.iter().filter(|a| !a.path().is_ident("doc")).map(|a| s(&format!("crate-attr {}", toks(a)))).collect();
+    const IO_TRAIT_METHODS: &[&str] = &["read", "read_vectored", "read_to_end", "read_to_string", "read_exact", "read_buf", "bytes", "chain", "take",
+        "by_ref", "write", "write_vectored", "write_all", "write_fmt", "flush", "poll_read", "poll_write", "poll_write_vectored", "poll_flush",
+        "poll_shutdown", "is_write_vectored", "fmt", "deref", "deref_mut", "default", "clone", "eq", "cmp", "partial_cmp", "hash", "from", "into",
+        "write_str", "write_char", "shutdown", "read_u8", "write_u8", "as_ref", "as_mut", "borrow", "borrow_mut"];
     fn walk_env(items: &[syn::Item], env: &mut Vec<J>) {
         for it in items {
             match it {
@@ -293,6 +297,12 @@ pub fn file_items(file: &syn::File) -> J {
                             // inherent methods of a Deref newtype shadow the target's methods of the same name
                             syn::ImplItem::Fn(f) if (im.trait_.is_some() || toks(&im.self_ty).contains("AsyncFixedBuf")) && !is_cfg_test(&f.attrs) =>
                                 env.push(s(&format!("impl-fn [{}] {} :: {}", tr, toks(&im.self_ty), f.sig.ident))),
+                            // the PUBLIC inherent methods of every other type are its API surface: a new one can shadow a trait method
+                            // (or a method reached through Deref) in user code written with method-call syntax; so can a private one
+                            // that carries the name of a std / tokio I/O trait method, inside the crate itself
+                            syn::ImplItem::Fn(f) if im.trait_.is_none() && !is_cfg_test(&f.attrs)
+                                && (matches!(f.vis, syn::Visibility::Public(_)) || IO_TRAIT_METHODS.contains(&f.sig.ident.to_string().as_str())) =>
+                                env.push(s(&format!("pub-fn {} :: {}", toks(&im.self_ty), f.sig.ident))),
                             syn::ImplItem::Type(t) => env.push(s(&format!("impl-type {} in {}", toks(t), toks(&im.self_ty)))),
                             syn::ImplItem::Macro(m) => env.push(s(&format!("impl-macro {}", toks(m)))),
                             _ => {}
